@@ -137,9 +137,14 @@ fn ops_env() -> Vec<String> {
 }
 
 fn emit_input(out: &mut dyn Write, ops: &[String], input: &[u8]) {
+    // the ops applied to one input are asked in a rotated order for every second input, so that each op gets to be the
+    // last call before the next input (a failing call that leaves something behind is then followed by a fresh input)
+    static COUNT: std::sync::atomic::AtomicUsize = std::sync::atomic::AtomicUsize::new(0);
+    let i = COUNT.fetch_add(1, std::sync::atomic::Ordering::Relaxed);
+    let rot = if i % 2 == 1 && !ops.is_empty() { (i / 2) % ops.len() } else { 0 };
     let h = hex(input);
-    for op in ops {
-        writeln!(out, "{} {}", op, h).unwrap();
+    for k in 0..ops.len() {
+        writeln!(out, "{} {}", ops[(k + rot) % ops.len()], h).unwrap();
     }
 }
 
@@ -1138,6 +1143,8 @@ pub fn op_alphabet(full: bool, likely: bool) -> Vec<String> {
 const HIST_INITS: &[&str] = &[
     "~", "en", "und", "en-Latn-US-macos", "en-u-ca-buddhist", "en-t-es-AR-h0-hybrid", "en-x-foo-bar",
     "sr-Cyrl-RS-u-attr-ca-gregory-nu-latn-t-es-h0-hybrid-m0-foo-bar-x-priv-a", "ar-EG", "zh-TW-u-ca", "UND-arab",
+    // identifiers without a minimal form, a language whose likely script is in no direction table, an unknown script
+    "und-Hant-DE", "zh-Hans-TW", "und-Mong-US-macos", "sd-Khoj", "he", "und-Latf-DE", "en-Zzzz-ZZ",
 ];
 
 fn stream_hist(thorough: bool, seed: u64, out: &mut dyn Write) {
